@@ -35,7 +35,7 @@ func isBlockPlusPeriod(v ssa.Value, period string) (bool, string) {
 	a, b := bin.X, bin.Y
 	isPeriod := func(x ssa.Value) bool {
 		call, ok := core.Unwrap(x).(*ssa.Call)
-		return ok && core.CalleeName(&call.Call) == "coreV2/types."+period
+		return ok && core.CalleeName(core.NormCall(&call.Call)) == "coreV2/types."+period
 	}
 	if isPeriod(a) {
 		a, b = b, a
@@ -237,10 +237,10 @@ func runC16(c *core.Ctx) {
 					op := bin.Op
 					lockSide, other := bin.X, bin.Y
 					call, isCall := core.Unwrap(lockSide).(*ssa.Call)
-					if !isCall || !strings.HasSuffix(core.CalleeName(&call.Call), ".GetLockStakeUntilBlock") {
+					if !isCall || !strings.HasSuffix(core.CalleeName(core.NormCall(&call.Call)), ".GetLockStakeUntilBlock") {
 						lockSide, other = bin.Y, bin.X
 						call, isCall = core.Unwrap(lockSide).(*ssa.Call)
-						if !isCall || !strings.HasSuffix(core.CalleeName(&call.Call), ".GetLockStakeUntilBlock") {
+						if !isCall || !strings.HasSuffix(core.CalleeName(core.NormCall(&call.Call)), ".GetLockStakeUntilBlock") {
 							continue
 						}
 						switch op { // mirror
@@ -429,7 +429,7 @@ func checkFieldReadyBeforeRead(c *core.Ctx, rule string, fn *ssa.Function, typ *
 						readers[g] = true
 					}
 				case *ssa.Call:
-					if strings.HasPrefix(core.CalleeName(&x.Call), "sync/atomic.Load") && len(x.Call.Args) == 1 && isFieldAddr(x.Call.Args[0]) {
+					if strings.HasPrefix(core.CalleeName(core.NormCall(&x.Call)), "sync/atomic.Load") && len(core.NormCall(&x.Call).Args) == 1 && isFieldAddr(core.NormCall(&x.Call).Args[0]) {
 						readers[g] = true
 					}
 				}
@@ -449,7 +449,7 @@ func checkFieldReadyBeforeRead(c *core.Ctx, rule string, fn *ssa.Function, typ *
 					writes = append(writes, in)
 				}
 			case *ssa.Call:
-				if strings.HasPrefix(core.CalleeName(&x.Call), "sync/atomic.Store") && len(x.Call.Args) == 2 && isFieldAddr(x.Call.Args[0]) {
+				if strings.HasPrefix(core.CalleeName(core.NormCall(&x.Call)), "sync/atomic.Store") && len(core.NormCall(&x.Call).Args) == 2 && isFieldAddr(core.NormCall(&x.Call).Args[0]) {
 					writes = append(writes, in)
 				}
 			}
@@ -470,7 +470,7 @@ func checkFieldReadyBeforeRead(c *core.Ctx, rule string, fn *ssa.Function, typ *
 						helperWrites[h] = true
 					}
 				case *ssa.Call:
-					if strings.HasPrefix(core.CalleeName(&x.Call), "sync/atomic.Store") && len(x.Call.Args) == 2 && isFieldAddr(x.Call.Args[0]) {
+					if strings.HasPrefix(core.CalleeName(core.NormCall(&x.Call)), "sync/atomic.Store") && len(core.NormCall(&x.Call).Args) == 2 && isFieldAddr(core.NormCall(&x.Call).Args[0]) {
 						helperWrites[h] = true
 					}
 				}
